@@ -361,12 +361,19 @@ def troot(u, n):
     return iroot(u, n)
 
 
+_small_primes = [p for p in range(2, 20000) if all(p % q for q in range(2, int(p ** 0.5) + 1))]
+
+
 def is_perfect_power(u):
+    """u = a^b with b > 1 (0, 1 and -1 count; negative u only odd powers)"""
     if u in (0, 1, -1):
-        return True if u != -1 else True    # -1 = (-1)^3
+        return True
     a = abs(u)
-    for e in range(2, a.bit_length() + 1):
-        if u < 0 and e % 2 == 0:
+    L = a.bit_length()
+    for e in _small_primes:
+        if e > L:
+            break
+        if u < 0 and e == 2:
             continue
         r = iroot(a, e)
         if r ** e == a:
